@@ -115,6 +115,7 @@ def _resume_runs(env: Env, out: Outcome, n: int, extra: list[dict]) -> None:
         spec["externals"] = [e for e in spec["externals"] if e["op"] != "snapshot"]
         spec["externals"].append({"op": "snapshot_stop", "after_quiet": rng.choice([0, 0, 1, 1, 2, 3])})
         jobs.append((spec, rng.randrange(1 << 30), None, None))
+    resumed: list = []
     for spec, seed, a1, a2 in jobs:
         tr1 = live.run_spec(spec, seed=seed, replay_actions=a1)
         out.evaluations += 1
@@ -130,6 +131,7 @@ def _resume_runs(env: Env, out: Outcome, n: int, extra: list[dict]) -> None:
             e["after_quiet"] = 0
         spec2["_resumed"] = True
         tr2 = live.run_spec(spec2, seed=seed + 1, replay_actions=a2, resume_from=snap["dict"])
+        resumed.append(tr2)
         out.count("resume:runs")
         out.count(f"resume:waiters_at_snapshot:{min(len(waiting), 3)}")
         out.count("resume:outcome:" + tr2.outcome[0])
@@ -164,6 +166,8 @@ def _resume_runs(env: Env, out: Outcome, n: int, extra: list[dict]) -> None:
                 if not raised and (replayed_to_end or stuck):
                     out.violations.append(Violation("C10/resumed_timeout_lost",
                                                     f"step {nm}: waiter {w.waiter_id!r} had timed out before the snapshot; after resume the TimeoutError is never raised", case))
+
+    suite.runner_corr(out, resumed, "engine-runner-resumed")
 
 
 def run(env: Env) -> Outcome:
